@@ -221,7 +221,8 @@ def c02_cases(tier, rng):
                 cfg = campaign.rand_cfg(rng, mode=mode, closure=closure, req_mode=None, req_closure=None, cktype=cktype)
                 shape = rng.choice(["file", "file", "dir", "exists"])
                 yield SysCase(cfg, bytes(rng.getrandbits(8) for _ in range(size)), extra_sm=rng.choice([0, 0, 1, 2, 3]),
-                              dst_is_dir=shape == "dir", dst_exists=shape == "exists", tag="c02")
+                              dst_is_dir=shape == "dir", dst_exists=shape == "exists", tag="c02",
+                              max_rounds=250 + 3 * (size // max(1, cfg.max_seg or 8)))   # the scheduler bound grows with the PDU count
     for mode, closure in itertools.product((0, 1), (False, True)):
         cfg = campaign.rand_cfg(rng, mode=mode, closure=closure, req_mode=None, req_closure=None)
         cfg.metadata_only = True
